@@ -109,8 +109,39 @@ def run(chk):
     # 3. volume: real code -> spec (before the gate replay: if the consumer loop itself deviates from KeyGen.tla, that is said here)
     trace = os.path.join(vplib.sub("c16"), "trace.ndjson")
     nk = 5000 if thorough else 250
-    vol = vplib.vh("kg", ["volume", "--n", str(nk), "--tier", T, "--seed", str(chk.seed), trace], timeout=3000)
+    wtrace = os.path.join(vplib.sub("c16"), "wtrace.ndjson")
+    vol = vplib.vh("kg", ["volume", "--n", str(nk), "--tier", T, "--seed", str(chk.seed), trace, wtrace], timeout=3000)
     chk.add_replay(vol, "volume")
+    # 3a. every real worker goroutine's hook sequence must be a path of the worker process of SafePrimeWorkers.tla
+    wt = vplib.tlc("SafePrimeWorkersTrace", "SafePrimeWorkers.wtrace.cfg", workers=1, timeout=900,
+                   files={"wtrace.ndjson": open(wtrace).read()}, allow_fail=True)
+    nw = sum(1 for _ in open(wtrace))
+    chk.add_tlc(wt, "SafePrimeWorkersTrace", "SafePrimeWorkers.wtrace.cfg", "%d recorded worker goroutines" % nw)
+    wrej = "WORKER TRACE REJECTED" in wt.out
+    if wt.error and not wrej:
+        raise vplib.Machinery("worker trace validation crashed: %s\n%s" % (wt.error, wt.out[-2000:]))
+    worker_diverges = False
+    if wrej:
+        # find the first sequence that is not a path of the worker automaton (same automaton, used only to NAME the culprit)
+        D = {("gen", "gen-ok"): "chk", ("gen", "gen-err"): "errsend0", ("chk", "stopped1"): "done", ("chk", "send-before"): "snd",
+             ("snd", "send-after"): "gen", ("snd", "stopped2"): "done", ("errsend0", "err-before"): "errsend", ("errsend", "err-close"): "done"}
+        culprit = None
+        for ln in open(wtrace):
+            pc = "gen"
+            seq = json.loads(ln)["seq"]
+            for k, e in enumerate(seq):
+                pc = D.get((pc, e))
+                if pc is None:
+                    culprit = {"sequence": seq[:k + 1][-8:], "position": k}
+                    break
+            if culprit:
+                break
+        worker_diverges = True
+        chk.add_violation({"kind": "worker-behaviour-not-in-spec",
+                           "what": "a safe-prime worker goroutine took a step that SafePrimeWorkers.tla does not allow (e.g. reached its next Generate call or a send "
+                                   "without passing the stop check / the guarded send): %s" % culprit, "culprit": culprit, "seed": chk.seed})
+    else:
+        chk.traces += nw
     tv = vplib.tlc("KeyGenTrace", "KeyGen.trace.cfg", workers=1, timeout=1500,
                    files={"trace.ndjson": open(trace).read()}, allow_fail=True)
     nev = sum(1 for _ in open(trace))
@@ -138,6 +169,9 @@ def run(chk):
         chk.traces += nk
         chk.evaluations += nev
     # 4. schedules: spec -> real goroutines
+    if worker_diverges:
+        chk.extra["gate_replay"] = "skipped: the workers' control flow is not the specification's (reported above)"
+        return
     S = schedules(chk, T, chk.seed, with_errors=not double_close)
     if len(S) < 1500:
         raise vplib.Machinery("only %d schedules to replay" % len(S))
